@@ -1,1 +1,299 @@
+From Coq Require Import Lia.
 From Flaxm Require Import Lib.Harness Model.Filters Model.Linen.
+
+Ltac inv H := inversion H; subst; clear H.
+
+(* ---------------- writes touch one collection only ---------------- *)
+Lemma cassoc_cset c c' v t : cassoc c (cset c' v t) = if N.eqb c c' then Some v else cassoc c t.
+Proof.
+  induction t as [|[k x] r IH]; simpl.
+  - destruct (N.eqb c c'); reflexivity.
+  - destruct (N.eqb_spec c' k) as [->|Hk]; simpl.
+    + destruct (N.eqb c k); reflexivity.
+    + rewrite IH. destruct (N.eqb_spec c k) as [->|Hc]; [|reflexivity].
+      destruct (N.eqb_spec k c'); [congruence|reflexivity].
+Qed.
+Lemma put_var_other t col p nm v c : c <> col -> cassoc c (put_var t col p nm v) = cassoc c t.
+Proof. intros H. unfold put_var. rewrite cassoc_cset. destruct (N.eqb_spec c col); [contradiction|reflexivity]. Qed.
+Lemma put_var_keeps t col p nm v c : cassoc c t <> None -> cassoc c (put_var t col p nm v) <> None.
+Proof. intros H. unfold put_var. rewrite cassoc_cset. destruct (N.eqb c col); [discriminate|exact H]. Qed.
+
+Lemma make_rng_vars ev p stream s s' : make_rng ev p stream s = Ok s' -> s_vars s' = s_vars s.
+Proof.
+  unfold make_rng. destruct (memN stream (e_streams ev)); [|destruct (memN (e_params ev) (e_streams ev))];
+    intros H; inv H; reflexivity.
+Qed.
+
+(* the state after a computation: collections that `mutable` does not select are exactly as before, and no
+   collection disappears *)
+Definition frame_rel (ev : env) (s s' : st) : Prop :=
+  (forall c, in_filter (e_mutable ev) c = false -> cassoc c (s_vars s') = cassoc c (s_vars s)) /\
+  (forall c, cassoc c (s_vars s) <> None -> cassoc c (s_vars s') <> None).
+
+Lemma frame_refl ev s : frame_rel ev s s.  Proof. split; auto. Qed.
+Lemma frame_trans ev a b c : frame_rel ev a b -> frame_rel ev b c -> frame_rel ev a c.
+Proof. intros [A1 A2] [B1 B2]. split; [intros x Hx; now rewrite B1, A1|auto]. Qed.
+
+Lemma frame_put ev s col p nm v cs tr : in_filter (e_mutable ev) col = true ->
+  frame_rel ev s (mkSt (put_var (s_vars s) col p nm v) cs tr).
+Proof.
+  intros Hm. split; simpl.
+  - intros c Hc. apply put_var_other. intros ->. congruence.
+  - intros c Hc. now apply put_var_keeps.
+Qed.
+Lemma frame_same_vars ev s s' : s_vars s' = s_vars s -> frame_rel ev s s'.
+Proof. intros H. split; intros c Hc; now rewrite H. Qed.
+
+Section StepFrame.
+  Variable ev : env.
+  Variable call : N -> path -> vec -> st -> res (vec * st).
+  Hypothesis call_frame : forall cls p v s y s', call cls p v s = Ok (y, s') -> frame_rel ev s s'.
+
+  Lemma step_frame p input fr s c fr' s' : step ev call p input fr s c = Ok (fr', s') -> frame_rel ev s s'.
+  Proof.
+    unfold step, mut. intros H. destruct c.
+    - (* SParam *)
+      destruct (name_reserved (f_resv fr) nm (Some (e_params ev))); [discriminate|].
+      destruct (has_var (s_vars s) (e_params ev) p nm).
+      + destruct (get_var (s_vars s) (e_params ev) p nm) as [[v|vs]|]; try discriminate.
+        destruct (Nat.eqb (length v) n); [|discriminate]. inv H. apply frame_refl.
+      + destruct (in_filter (e_mutable ev) (e_params ev)) eqn:Em; simpl in H; [|destruct (col_empty (s_vars s) (e_params ev)); discriminate].
+        destruct (make_rng ev p (e_params ev) s) as [s1|] eqn:Er; [|discriminate]. inv H.
+        eapply frame_trans; [apply frame_same_vars; eapply make_rng_vars; eauto|]. now apply frame_put.
+    - (* SVar *)
+      destruct (name_reserved (f_resv fr) nm (Some col)); [discriminate|].
+      destruct (has_var (s_vars s) col p nm).
+      + destruct (get_var (s_vars s) col p nm) as [[v|vs]|]; try discriminate. inv H. apply frame_refl.
+      + destruct (in_filter (e_mutable ev) col) eqn:Em; simpl in H; [|destruct (col_empty (s_vars s) col); discriminate].
+        inv H. now apply frame_put.
+    - (* SVarSet *)
+      destruct (eval (f_locals fr) input e); [|discriminate].
+      destruct (in_filter (e_mutable ev) col) eqn:Em; [|discriminate]. inv H. now apply frame_put.
+    - (* SSow *)
+      destruct (eval (f_locals fr) input e); [|discriminate].
+      destruct (in_filter (e_mutable ev) col) eqn:Em; simpl in H; [|inv H; apply frame_refl].
+      destruct (has_var (s_vars s) col p nm).
+      + destruct (get_var (s_vars s) col p nm) as [[v0|vs]|]; try discriminate. inv H. now apply frame_put.
+      + destruct (name_reserved (f_resv fr) nm (Some col)); [discriminate|]. inv H. now apply frame_put.
+    - (* SPerturb *)
+      destruct (eval (f_locals fr) input e) as [v|]; [|discriminate].
+      destruct (in_filter (e_mutable ev) (e_perturb ev) && negb (has_var (s_vars s) (e_perturb ev) p nm)) eqn:Eg.
+      + destruct (name_reserved (f_resv fr) nm (Some (e_perturb ev))); [discriminate|].
+        apply andb_true_iff in Eg as [Em _].
+        match type of H with context[cassoc ?c ?t] => destruct (cassoc c t) end.
+        * match type of H with context[get_var ?t ?c ?q ?m] => destruct (get_var t c q m) as [[old|vs]|] end; try discriminate.
+          destruct (vop Z.add v old); [|discriminate]. inv H. now apply frame_put.
+        * inv H. now apply frame_put.
+      + destruct (cassoc (e_perturb ev) (s_vars s)).
+        * destruct (get_var (s_vars s) (e_perturb ev) p nm) as [[old|vs]|]; try discriminate.
+          destruct (vop Z.add v old); [|discriminate]. inv H. apply frame_refl.
+        * inv H. apply frame_refl.
+    - (* SRng *)
+      destruct (make_rng ev p stream s) as [s1|] eqn:Er; [|discriminate]. inv H. apply frame_same_vars. eapply make_rng_vars; eauto.
+    - (* SLet *) destruct (eval (f_locals fr) input e); [|discriminate]. inv H. apply frame_refl.
+    - (* SChild *)
+      destruct nm as [n|].
+      + destruct (name_reserved (f_resv fr) (NExp n) None); [discriminate|]. inv H. apply frame_refl.
+      + match type of H with context[name_reserved ?r ?n None] => destruct (name_reserved r n None) end; [discriminate|]. inv H. apply frame_refl.
+    - (* SCall *)
+      destruct (eval (f_locals fr) input e) as [v|]; [|discriminate].
+      destruct (lassoc i (f_insts fr)) as [[cls cp]|]; [|discriminate].
+      destruct (call cls cp v s) as [[y s1]|] eqn:Ec; [|discriminate]. inv H. eapply call_frame; eauto.
+  Qed.
+
+  Lemma steps_frame p input : forall cs fr s fr' s', steps ev call p input fr s cs = Ok (fr', s') -> frame_rel ev s s'.
+  Proof.
+    induction cs as [|c r IH]; intros fr s fr' s' H; simpl in H; [inv H; apply frame_refl|].
+    destruct (step ev call p input fr s c) as [[fr1 s1]|] eqn:E; [|discriminate].
+    eapply frame_trans; [eapply step_frame; eauto|eapply IH; eauto].
+  Qed.
+End StepFrame.
+
+Theorem run_call_frame ev : forall fuel cls p v s y s', run_call fuel ev cls p v s = Ok (y, s') -> frame_rel ev s s'.
+Proof.
+  induction fuel as [|f IH]; intros cls p v s y s' H; [discriminate|]. simpl in H.
+  destruct (lassoc cls (e_classes ev)) as [[body ret]|]; [|discriminate].
+  destruct (steps ev (run_call f ev) p v frame0 s body) as [[fr s1]|] eqn:E; [|discriminate].
+  destruct (eval (f_locals fr) v ret); [|discriminate]. inv H.
+  eapply steps_frame; [|exact E]. intros; eapply IH; eauto.
+Qed.
+
+(* C01: only the collections selected by `mutable` can change; every existing collection survives, so those that
+   match `mutable` are all returned *)
+Theorem mutable_contract ev top vars x y s : apply_m ev top vars x = Ok (y, s) ->
+  (forall c, in_filter (e_mutable ev) c = false -> cassoc c (s_vars s) = cassoc c vars) /\
+  (forall c, cassoc c vars <> None -> cassoc c (s_vars s) <> None) /\
+  (forall c n, In (c, n) (returned ev (s_vars s)) <-> In (c, n) (s_vars s) /\ in_filter (e_mutable ev) c = true).
+Proof.
+  intros H. destruct (run_call_frame ev _ _ _ _ _ _ _ H) as [A B]. split; [exact A|]. split; [exact B|].
+  intros c n. unfold returned. rewrite filter_In. simpl. tauto.
+Qed.
+
+(* a write to a collection that is not mutable raises instead of taking effect *)
+Theorem immutable_write_raises ev call p input fr s col nm e v :
+  eval (f_locals fr) input e = Some v -> in_filter (e_mutable ev) col = false ->
+  step ev call p input fr s (SVarSet col nm e) = Err EModifyScope.
+Proof. intros He Hm. unfold step, mut. now rewrite He, Hm. Qed.
+Theorem immutable_param_init_raises ev call p input fr s x nm n c :
+  name_reserved (f_resv fr) nm (Some (e_params ev)) = false -> has_var (s_vars s) (e_params ev) p nm = false ->
+  in_filter (e_mutable ev) (e_params ev) = false ->
+  step ev call p input fr s (SParam x nm n c) = Err ECollectionNotFound \/ step ev call p input fr s (SParam x nm n c) = Err EParamNotFound.
+Proof. intros Hr Hh Hm. unfold step, mut. rewrite Hr, Hh, Hm. simpl. destruct (col_empty (s_vars s) (e_params ev)); auto. Qed.
+Theorem immutable_sow_is_noop ev call p input fr s col nm e v :
+  eval (f_locals fr) input e = Some v -> in_filter (e_mutable ev) col = false ->
+  step ev call p input fr s (SSow col nm e) = Ok (fr, s).
+Proof. intros He Hm. unfold step, mut. now rewrite He, Hm. Qed.
+Theorem wrong_shape_param_raises ev call p input fr s x nm n c v :
+  name_reserved (f_resv fr) nm (Some (e_params ev)) = false -> has_var (s_vars s) (e_params ev) p nm = true ->
+  get_var (s_vars s) (e_params ev) p nm = Some (SVec v) -> length v <> n ->
+  step ev call p input fr s (SParam x nm n c) = Err EParamShape.
+Proof. intros Hr Hh Hg Hl. unfold step. rewrite Hr, Hh, Hg. apply Nat.eqb_neq in Hl. now rewrite Hl. Qed.
+
+(* ---------------- C02: name clashes raise ---------------- *)
+Theorem child_name_clash ev call p input fr s i cls n :
+  name_reserved (f_resv fr) (NExp n) None = true -> step ev call p input fr s (SChild i cls (Some n)) = Err ENameInUse.
+Proof. intros H. unfold step. now rewrite H. Qed.
+Theorem variable_name_clash ev call p input fr s x col nm n c :
+  name_reserved (f_resv fr) nm (Some col) = true -> step ev call p input fr s (SVar x col nm n c) = Err ENameInUse.
+Proof. intros H. unfold step. now rewrite H. Qed.
+Theorem param_name_clash ev call p input fr s x nm n c :
+  name_reserved (f_resv fr) nm (Some (e_params ev)) = true -> step ev call p input fr s (SParam x nm n c) = Err ENameInUse.
+Proof. intros H. unfold step. now rewrite H. Qed.
+(* what "reserved" means: a child scope clashes with everything of that name; two variables clash only within
+   one collection *)
+Theorem reserved_child_blocks_all r nm col : In (nm, None) r -> name_reserved r nm col = true.
+Proof.
+  intros H. unfold name_reserved. apply existsb_exists. exists (nm, None). split; [exact H|]. simpl.
+  assert (name_eqb nm nm = true) as -> by (destruct nm; simpl; rewrite ?N.eqb_refl, ?Nat.eqb_refl; reflexivity). reflexivity.
+Qed.
+Theorem same_name_other_collection_allowed nm c c' : c <> c' -> name_reserved [(nm, Some c)] nm (Some c') = false.
+Proof. intros H. unfold name_reserved. simpl. destruct (name_eqb nm nm); [|reflexivity]. simpl. destruct (N.eqb_spec c c'); [congruence|reflexivity]. Qed.
+
+(* ---------------- C09: keys are position-addressed and never reused ---------------- *)
+(* every KeyDrawn event carries the count the counter had just reached; counters only grow *)
+Definition keys_of (tr : list event) : list (N * path * nat) :=
+  flat_map (fun e => match e with KeyDrawn s p n => [(s, p, n)] | ParamInit _ _ => [] end) tr.
+
+Lemma path_eqb_eq a b : path_eqb a b = true <-> a = b.
+Proof.
+  apply list_beq_spec. intros x y. destruct x, y; simpl; split; intros H; try discriminate; try (inversion H; subst; rewrite ?N.eqb_refl, ?Nat.eqb_refl; reflexivity).
+  - apply N.eqb_eq in H. now subst.
+  - apply andb_true_iff in H as [H1 H2]. apply N.eqb_eq in H1. apply Nat.eqb_eq in H2. now subst.
+Qed.
+
+Lemma counter_set cs p s n q t : counter (set_counter cs p s n) q t = if path_eqb q p && N.eqb t s then n else counter cs q t.
+Proof.
+  induction cs as [|[[q0 t0] m] r IH]; simpl.
+  - reflexivity.
+  - destruct (path_eqb p q0 && N.eqb s t0) eqn:E; simpl.
+    + apply andb_true_iff in E as [E1 E2]. apply path_eqb_eq in E1. apply N.eqb_eq in E2. subst.
+      destruct (path_eqb q q0 && N.eqb t t0); reflexivity.
+    + rewrite IH. destruct (path_eqb q q0 && N.eqb t t0) eqn:E2; [|reflexivity].
+      apply andb_true_iff in E2 as [A B]. apply path_eqb_eq in A. apply N.eqb_eq in B. subst.
+      destruct (path_eqb q0 p && N.eqb t0 s) eqn:E3; [|reflexivity].
+      apply andb_true_iff in E3 as [A B]. apply path_eqb_eq in A. apply N.eqb_eq in B. subst.
+      assert (path_eqb p p = true) by now apply path_eqb_eq. rewrite H, N.eqb_refl in E. discriminate.
+Qed.
+
+(* invariant: every key in the trace has a count between 1 and the current counter of its (path, stream), and
+   the keys are pairwise different *)
+Definition keys_inv (s : st) : Prop :=
+  NoDup (keys_of (s_trace s)) /\
+  forall t p n, In (t, p, n) (keys_of (s_trace s)) -> 1 <= n <= counter (s_counters s) p t.
+
+Lemma keys_of_app a b : keys_of (a ++ b) = keys_of a ++ keys_of b.
+Proof. unfold keys_of. apply flat_map_app. Qed.
+
+Lemma make_rng_inv ev p stream s s' : keys_inv s -> make_rng ev p stream s = Ok s' -> keys_inv s'.
+Proof.
+  intros [ND B] H. unfold make_rng in H.
+  assert (G : forall t, keys_inv (mkSt (s_vars s) (set_counter (s_counters s) p t (S (counter (s_counters s) p t)))
+                                       (s_trace s ++ [KeyDrawn t p (S (counter (s_counters s) p t))]))).
+  { intros t. split; simpl; rewrite keys_of_app; simpl.
+    - apply NoDup_app_remove_r || idtac. rewrite <- (app_nil_r (keys_of (s_trace s))) in ND.
+      apply NoDup_remove_1 in ND || idtac. 
+      assert (~ In (t, p, S (counter (s_counters s) p t)) (keys_of (s_trace s))) by (intros Hin; specialize (B _ _ _ Hin); lia).
+      clear -ND H0. rewrite app_nil_r in ND. induction (keys_of (s_trace s)) as [|a r IH]; simpl; [constructor; [auto|constructor]|].
+      inv ND. constructor; [|apply IH; auto; intros Hx; apply H0; now right].
+      intros Hin. apply in_app_or in Hin as [Hin|[Hin|[]]]; [contradiction|]. apply H0. left. now symmetry.
+    - intros t' p' n' Hin. apply in_app_or in Hin as [Hin|[Hin|[]]].
+      + specialize (B _ _ _ Hin). rewrite counter_set. destruct (path_eqb p' p && N.eqb t' t) eqn:E; [|exact B].
+        apply andb_true_iff in E as [E1 E2]. apply path_eqb_eq in E1. apply N.eqb_eq in E2. subst. lia.
+      + inv Hin. rewrite counter_set. assert (path_eqb p' p' = true) by now apply path_eqb_eq. rewrite H0, N.eqb_refl. simpl. lia. }
+  destruct (memN stream (e_streams ev)); [inv H; apply G|].
+  destruct (memN (e_params ev) (e_streams ev)); [inv H; apply G|discriminate].
+Qed.
+
+Lemma keys_inv_vars s v : keys_inv s -> keys_inv (mkSt v (s_counters s) (s_trace s)).
+Proof. intros H. exact H. Qed.
+Lemma keys_inv_param s v p nm : keys_inv s -> keys_inv (mkSt v (s_counters s) (s_trace s ++ [ParamInit p nm])).
+Proof. intros [A B]. split; simpl; rewrite keys_of_app; simpl; rewrite app_nil_r; assumption. Qed.
+
+Section StepKeys.
+  Variable ev : env.
+  Variable call : N -> path -> vec -> st -> res (vec * st).
+  Hypothesis call_keys : forall cls p v s y s', keys_inv s -> call cls p v s = Ok (y, s') -> keys_inv s'.
+
+  Lemma step_keys p input fr s c fr' s' : keys_inv s -> step ev call p input fr s c = Ok (fr', s') -> keys_inv s'.
+  Proof.
+    unfold step. intros I H. destruct c.
+    - destruct (name_reserved (f_resv fr) nm (Some (e_params ev))); [discriminate|].
+      destruct (has_var (s_vars s) (e_params ev) p nm).
+      + destruct (get_var (s_vars s) (e_params ev) p nm) as [[v|vs]|]; try discriminate.
+        destruct (Nat.eqb (length v) n); [|discriminate]. inv H. exact I.
+      + destruct (negb (mut ev (e_params ev))); [destruct (col_empty (s_vars s) (e_params ev)); discriminate|].
+        destruct (make_rng ev p (e_params ev) s) as [s1|] eqn:Er; [|discriminate]. inv H.
+        apply keys_inv_param. eapply make_rng_inv; eauto.
+    - destruct (name_reserved (f_resv fr) nm (Some col)); [discriminate|].
+      destruct (has_var (s_vars s) col p nm).
+      + destruct (get_var (s_vars s) col p nm) as [[v|vs]|]; try discriminate. inv H. exact I.
+      + destruct (negb (mut ev col)); [destruct (col_empty (s_vars s) col); discriminate|]. inv H. exact I.
+    - destruct (eval (f_locals fr) input e); [|discriminate]. destruct (mut ev col); [|discriminate]. inv H. exact I.
+    - destruct (eval (f_locals fr) input e); [|discriminate]. destruct (negb (mut ev col)); [inv H; exact I|].
+      destruct (has_var (s_vars s) col p nm).
+      + destruct (get_var (s_vars s) col p nm) as [[v0|vs]|]; try discriminate. inv H. exact I.
+      + destruct (name_reserved (f_resv fr) nm (Some col)); [discriminate|]. inv H. exact I.
+    - destruct (eval (f_locals fr) input e) as [v|]; [|discriminate].
+      destruct (mut ev (e_perturb ev) && negb (has_var (s_vars s) (e_perturb ev) p nm)).
+      + destruct (name_reserved (f_resv fr) nm (Some (e_perturb ev))); [discriminate|].
+        match type of H with context[cassoc ?c ?t] => destruct (cassoc c t) end.
+        * match type of H with context[get_var ?t ?c ?q ?m] => destruct (get_var t c q m) as [[old|vs]|] end; try discriminate.
+          destruct (vop Z.add v old); [|discriminate]. inv H. exact I.
+        * inv H. exact I.
+      + destruct (cassoc (e_perturb ev) (s_vars s)).
+        * destruct (get_var (s_vars s) (e_perturb ev) p nm) as [[old|vs]|]; try discriminate.
+          destruct (vop Z.add v old); [|discriminate]. inv H. exact I.
+        * inv H. exact I.
+    - destruct (make_rng ev p stream s) as [s1|] eqn:Er; [|discriminate]. inv H. eapply make_rng_inv; eauto.
+    - destruct (eval (f_locals fr) input e); [|discriminate]. inv H. exact I.
+    - destruct nm as [n|].
+      + destruct (name_reserved (f_resv fr) (NExp n) None); [discriminate|]. inv H. exact I.
+      + match type of H with context[name_reserved ?r ?n None] => destruct (name_reserved r n None) end; [discriminate|]. inv H. exact I.
+    - destruct (eval (f_locals fr) input e) as [v|]; [|discriminate].
+      destruct (lassoc i (f_insts fr)) as [[cls cp]|]; [|discriminate].
+      destruct (call cls cp v s) as [[y s1]|] eqn:Ec; [|discriminate]. inv H. eapply call_keys; eauto.
+  Qed.
+
+  Lemma steps_keys p input : forall cs fr s fr' s', keys_inv s -> steps ev call p input fr s cs = Ok (fr', s') -> keys_inv s'.
+  Proof.
+    induction cs as [|c r IH]; intros fr s fr' s' I H; simpl in H; [inv H; exact I|].
+    destruct (step ev call p input fr s c) as [[fr1 s1]|] eqn:E; [|discriminate].
+    eapply IH; [eapply step_keys; eauto|eauto].
+  Qed.
+End StepKeys.
+
+Theorem run_call_keys ev : forall fuel cls p v s y s', keys_inv s -> run_call fuel ev cls p v s = Ok (y, s') -> keys_inv s'.
+Proof.
+  induction fuel as [|f IH]; intros cls p v s y s' I H; [discriminate|]. simpl in H.
+  destruct (lassoc cls (e_classes ev)) as [[body ret]|]; [|discriminate].
+  destruct (steps ev (run_call f ev) p v frame0 s body) as [[fr s1]|] eqn:E; [|discriminate].
+  destruct (eval (f_locals fr) v ret); [|discriminate]. inv H.
+  eapply steps_keys; [|exact I|exact E]. intros; eapply IH; eauto.
+Qed.
+
+(* C09 (Linen): within one init/apply no two draws get the same (stream, module path, count) *)
+Theorem keys_never_reused ev top vars x y s : apply_m ev top vars x = Ok (y, s) -> NoDup (keys_of (s_trace s)).
+Proof.
+  intros H. assert (I0 : keys_inv (mkSt vars [] [])) by (split; simpl; [constructor|intros ? ? ? []]).
+  exact (proj1 (run_call_keys ev _ _ _ _ _ _ _ I0 H)).
+Qed.
